@@ -29,6 +29,9 @@ type Step struct {
 	Anyway bool   `json:"anyway,omitempty"`
 	Lane   int    `json:"lane,omitempty"`
 	N      int    `json:"n,omitempty"` // burst: number of adds issued back to back by one goroutine, no quiescence in between
+	// burst: the same goroutine calls Close right after its adds (only owned when every parked consumer drains
+	// after close - PopAnyway or the sync queue; otherwise the close is issued as a step of its own)
+	ThenClose bool `json:"then_close,omitempty"`
 }
 
 type CaseCtl struct {
@@ -58,7 +61,11 @@ func GenCtl(t *rapid.T) CaseCtl {
 		case 3, 4:
 			st := genAdd(t, c.Kind)
 			if st.Op == "add" {
-				st.Op, st.N = "burst", rapid.IntRange(2, 4).Draw(t, "burst")
+				st.Op, st.N = "burst", rapid.IntRange(1, 4).Draw(t, "burst")
+				st.ThenClose = rapid.IntRange(0, 2).Draw(t, "thenclose") == 0
+				if st.N == 1 && !st.ThenClose {
+					st.N = 2
+				}
 			}
 			c.Steps = append(c.Steps, st)
 		case 5, 6:
@@ -88,6 +95,9 @@ type model struct {
 	lanes   [2][]int // [req, ctrl]
 	closed  bool
 	waiting int
+	// waitingPop: how many of the waiting consumers use the plain Pop of a pipe queue (which fails after close even
+	// if an item is there for it); an upper bound once adds have served unknown members of the waiting set
+	waitingPop int
 }
 
 func (m *model) empty() bool { return len(m.lanes[0])+len(m.lanes[1]) == 0 }
@@ -161,6 +171,9 @@ func ExecCtl(c CaseCtl) *vkit.Result {
 				expect = append(expect, ret{closed: true})
 			default:
 				m.waiting++
+				if !anyway {
+					m.waitingPop++
+				}
 			}
 			pop := q.Pop
 			if st.Anyway {
@@ -193,6 +206,13 @@ func ExecCtl(c CaseCtl) *vkit.Result {
 					res.Class("burst-with-two-or-more-parked")
 				}
 			}
+			thenClose := st.Op == "burst" && st.ThenClose && !m.closed
+			splitClose := false
+			if thenClose && m.waitingPop > 0 {
+				// a parked plain Pop may see the item or the close first: not schedule-owned
+				thenClose, splitClose = false, true
+				res.Skip("burst-then-close-with-plain-pop-waiters")
+			}
 			var wants []qadapt.Outcome
 			for k := 0; k < n; k++ {
 				v := 1000 + 100*i + k
@@ -220,6 +240,17 @@ func ExecCtl(c CaseCtl) *vkit.Result {
 			if prior {
 				add = q.AddPrior
 			}
+			if m.waiting < m.waitingPop {
+				m.waitingPop = m.waiting
+			}
+			if thenClose {
+				m.closed = true
+				res.Class(fmt.Sprintf("burst-then-close-with-%d-parked", min(m.waiting, 3)))
+				for ; m.waiting > 0; m.waiting-- {
+					expect = append(expect, ret{closed: true})
+				}
+				m.waitingPop = 0
+			}
 			mut = sched.Go("add", func() {
 				for k := 0; k < n; k++ {
 					if o := add(lane, 1000+100*i+k); o != wants[k] {
@@ -227,7 +258,11 @@ func ExecCtl(c CaseCtl) *vkit.Result {
 						return
 					}
 				}
+				if thenClose {
+					q.Close()
+				}
 			})
+			_ = splitClose // the close is simply dropped then (a later close step may follow)
 		case "close":
 			if firstEvent && m.waiting >= 2 {
 				res.NonTrivial = true
@@ -241,6 +276,7 @@ func ExecCtl(c CaseCtl) *vkit.Result {
 				for ; m.waiting > 0; m.waiting-- {
 					expect = append(expect, ret{closed: true})
 				}
+				m.waitingPop = 0
 			}
 			mut = sched.Go("close", q.Close)
 		default:
@@ -741,7 +777,7 @@ func ExecPriStress(c CasePriStress) *vkit.Result {
 
 var PartCtl = &vkit.Part[CaseCtl]{
 	Property: Property, Name: "controlled",
-	Rule:  "rapid: {pipe/q.Q | pipe/async.Q | pipe/mux.Q | pipe/mq.MQ | syncq.SyncQueue, capacities} x (0-2 initial adds, 1-5 consumers parked one by one in Pop or PopAnyway, then 1-10 of add / prior-add / ctrl-add / consume / close); every call on its own goroutine, quiescence after each; per step the consumers that returned (items or closed) and the number still parked must equal the model's: one add wakes exactly one parked consumer with that item, close releases all of them. Non-trivial: >= 2 consumers parked before the first add/close; distinct = distinct case JSON",
+	Rule:  "rapid: {pipe/q.Q | pipe/async.Q | pipe/mux.Q | pipe/mq.MQ | syncq.SyncQueue, capacities} x (0-2 initial adds, 1-5 consumers parked one by one in Pop or PopAnyway, then 1-10 of add / prior-add / ctrl-add / burst of 1-4 adds by one goroutine, optionally followed by its Close, without quiescence in between / consume / close); every call on its own goroutine, quiescence after each; per step the consumers that returned (items or closed) and the number still parked must equal the model's: one add wakes exactly one parked consumer with that item, close releases all of them. Non-trivial: >= 2 consumers parked before the first add/close; distinct = distinct case JSON",
 	Quick: 2400, Thorough: 15000,
 	Gen: GenCtl, Exec: ExecCtl,
 }
